@@ -418,6 +418,11 @@ class FakeOS:
             n = s.entry(p, target).ofd.obj
         else:
             n = s.lookup(p, target)
+        if p.euid != 0 and getattr(n, "uid", p.euid) != p.euid:
+            # POSIX: setting explicit times needs ownership (or privilege); 'now' would also be allowed with write access
+            if times is not None or not (getattr(n, "mode", 0o666) & 0o002):
+                s.ev(p.name, "utime-eperm", (getattr(n, "uid", None), p.euid))
+                raise PermissionError(errno.EPERM, "Operation not permitted")
         n.mtime = times[1] if times is not None else s.now
         s.ev(p.name, "utime", round(n.mtime, 3))
         s.tick()
